@@ -216,8 +216,10 @@ def _install_link_models(eng):
     eng.overrides[("py7zr.helpers", "is_path_valid")] = lambda e, target, parent: True
 
 
-def damaged_extract(pattern, folders, opts, mode, unroll=1):
-    """mode: 'extractall' (factory), 'paths' (output path stubs incl. the symlink branch), 'testzip'"""
+def damaged_extract(pattern, folders, opts, mode, unroll=1, by_path=False):
+    """mode: 'extractall' (factory), 'paths' (output path stubs incl. the symlink branch), 'testzip'
+    by_path: the archive is opened by name, so multi-folder archives take the thread-parallel branch (run with a
+    sequential thread stand-in: one schedule)"""
     n = len(pattern)
     r = ObResult(bounds="layout %s; one folder's decoded stream damaged from a symbolic offset on; %s; selection symbolic; "
                         "<= %d decoder call(s) per member" % (RC.shape_name(pattern, folders, opts), mode, unroll))
@@ -232,7 +234,7 @@ def damaged_extract(pattern, folders, opts, mode, unroll=1):
         entries, layout = RC.build(e, pattern, folders, opts, sym)
         e.assume(e.range_cond(d, 41))
         try:
-            z, fp, w = X.setup_read(e, entries, layout, intact=False, consume="all-at-once")
+            z, fp, w = X.setup_read(e, entries, layout, intact=False, consume="all-at-once", name=("arch.7z" if by_path else None))
         except ModelRaise as ex:
             return dict(exc="open:" + ex.name)
         # CRC facts under the damage model (no collisions)
@@ -470,6 +472,10 @@ def units(tier):
         for mode in ("extractall", "paths", "testzip"):
             us.append(Unit("3.damaged[%s,%s]" % (RC.shape_name(p, f, o), mode), M, "damaged_extract",
                            dict(pattern=p, folders=f, opts=o, mode=mode, unroll=1 if tier == "quick" else 2), 1800))
+    for (p, f, o) in [("ff", [1, 1], {}), ("fl", [1, 1], {})]:
+        for mode in ("extractall", "testzip"):
+            us.append(Unit("3.damaged_by_path[%s,%s]" % (RC.shape_name(p, f, o), mode), M, "damaged_extract",
+                           dict(pattern=p, folders=f, opts=o, mode=mode, unroll=1, by_path=True), 1800))
     for n, dfn in [(1, [True]), (2, [True, True]), (2, [False, True]), (2, [True, False])] + ([(3, [False, True, True]), (3, [True, False, True])] if tier == "thorough" else []):
         us.append(Unit("4.packed_test[%s]" % dfn, M, "packed_test", dict(folders_n=n, defined=dfn), 900))
     return us
